@@ -238,6 +238,87 @@ def copy_string_steps(language):
     return steps
 
 
+# ---- assembly order of the C wrapper body (Wrapc.wrap_function), observed on real output
+WRAP_PROBE_YAML = """library: prb
+cxx_header: prb.hpp
+declarations:
+- decl: const std::string * getp() +len=30
+  fstatements:
+    c_buf:
+      final:
+      - delete {cxx_var};
+- decl: const char * getc() +len=30
+  fstatements:
+    c_buf:
+      final:
+      - free(const_cast<char *>({cxx_var}));
+- decl: int order(std::string & a +intent(inout))
+  fstatements:
+    c_buf:
+      final:
+      - // MARK final
+"""
+WRAP_PROBE_HPP = """#include <string>
+const std::string * getp();
+const char * getc();
+int order(std::string & a);
+"""
+
+
+def wrapper_body(text, cname):
+    m = re.search(r"\n[^\n]*\b%s\([^)]*\)\n\{\n(.*?)\n\}\n" % re.escape(cname), text, re.S)
+    if not m:
+        raise UnknownLine("wrap probe: no C wrapper %s in the generated file" % cname)
+    return m.group(1)
+
+
+def observed_groups(body, classes):
+    """Order in which the statement groups appear in a generated body.  `classes`: (substring, group)."""
+    seq = []
+    for ln in body.split("\n"):
+        for sub, g in classes:
+            if sub in ln:
+                if not seq or seq[-1] != g:
+                    if g in seq:
+                        raise UnknownLine("wrap probe: statement group %s appears twice in %r" % (g, body))
+                    seq.append(g)
+                break
+    return seq
+
+
+def wrap_probe(outdir):
+    """Run the working tree's Shroud on the probe library in `outdir`; returns (order, path of wrapprb.cpp)."""
+    from tools import shroudrun
+    y = shroudrun.write_yaml(outdir, "prb.yaml", WRAP_PROBE_YAML)
+    open(os.path.join(outdir, "prb.hpp"), "w").write(WRAP_PROBE_HPP)
+    cfg, exc, _out = shroudrun.run_inproc([y], outdir)
+    cpp = os.path.join(outdir, "wrapprb.cpp")
+    if exc is not None or not os.path.exists(cpp):
+        raise UnknownLine("wrap probe: Shroud raised %r" % (exc,))
+    text = open(cpp).read()
+    order = observed_groups(wrapper_body(text, "PRB_order_bufferify"),
+                            [("std::string SHCXX_a(", ".preCall"), ("order(SHCXX_a)", ".call"), ("ShroudStrCopy(", ".postCall"),
+                             ("// MARK final", ".final"), ("return ", ".ret")])
+    if sorted(order) != sorted([".preCall", ".call", ".postCall", ".final", ".ret"]):
+        raise UnknownLine("wrap probe: groups found in PRB_order_bufferify: %s" % order)
+    # the two result wrappers must show the same relative order of call / post_call / final
+    for cname, cls in (("PRB_getp_bufferify", [("getp()", ".call"), ("ShroudStrCopy(", ".postCall"), ("delete ", ".final")]),
+                       ("PRB_getc_bufferify", [("getc()", ".call"), ("ShroudStrCopy(", ".postCall"), ("free(", ".final")])):
+        got = observed_groups(wrapper_body(text, cname), cls)
+        want = [g for g in order if g in got]
+        if got != want or len(got) != 3:
+            raise UnknownLine("wrap probe: %s assembles %s, PRB_order_bufferify %s" % (cname, got, order))
+    return order, cpp
+
+
+def wrap_order():
+    d = common.scratch()
+    try:
+        return wrap_probe(d)[0]
+    finally:
+        common.rmtree(d)
+
+
 def render():
     cxx = resolved("c++")
     c = resolved("c")
@@ -259,6 +340,9 @@ def render():
     out.append("")
     out.append("/-- body of `ShroudCopyStringAndFree` (CHelpers copy_string), statements in text order -/")
     out.append("def copyStringSteps : List Shroud.Str.CsStep := %s" % lst(steps))
+    out.append("")
+    out.append("/-- order of the statement groups in a C wrapper body, observed on the output of Wrapc.wrap_function -/")
+    out.append("def wrapOrder : List Group := %s" % lst(wrap_order()))
     out.append("")
     out.append("def entries : List (Nat × Entry) := [")
     out.append(",\n".join("  (%d, %s)" % (i, e[0]) for i, e in enumerate(cxx)))
